@@ -295,7 +295,7 @@ def run(scn):
     faults = {}
     probes = {"shadow_switch_taken": 0, "accel_rejected_magnitude": 0, "mag_rejected_vertical": 0, "mag_rejected_tilt_uncertainty": 0,
               "dt_nonpositive_seen": 0, "check_nan_raised": 0, "init_judged": 0, "init_refused": 0, "predict_judged": 0,
-              "correct_accepted": 0, "correct_rejected": 0, "out_of_domain_calls": 0, "rate_limit_skips": 0, "corrections_spacing_checked": 0,
+              "correct_accepted": 0, "correct_rejected": 0, "out_of_domain_calls": 0, "corrections_spacing_checked": 0,
               "gross_accel_in_domain": 0, "state_poisoned_out_of_domain": 0, "init_consistency_judged": 0}
     ctx = {"ts": None, "kind": None, "fault": None, "q_true": None}
     model_params = {"mrp/dt_min_accel": 1.0 / 200, "mrp/dt_min_mag": 1.0 / 200, "mrp/mag_decl": 0.0}
